@@ -67,7 +67,12 @@ pub struct C16 {
     pub knob_at: u32,
     /// before this item, on the idle writer: into_parts() + with_buffer() round trip
     pub rewrap_at: Option<u32>,
+    /// after the k-th cancelled write (before the resuming sync) lower max_len to the largest payload still to come
+    /// (only when max_len_mode == 0): the frame in flight was already admitted
+    pub knob_mid: Option<u32>,
     pub sink: Vec<Step>,
+    /// outcomes of the sink's poll_flush, whoever calls it (Pending / Err(kind) / Ok)
+    pub flush_lane: Vec<Step>,
     pub caller: Vec<Decide>,
 }
 
@@ -353,8 +358,10 @@ impl C16 {
         }
         let n = self.items.len() as u64;
         let budget = self.sink.len() as u64 + self.caller.len() as u64 + 8 * (n + 1) + 32 + 2 * n;
+        let budget = budget + 2 * self.flush_lane.len() as u64;
         let core = SinkCore::new(self.sink.clone(), None, budget, obs.clone());
         core.borrow_mut().layout = layout;
+        core.borrow_mut().flush_lane = self.flush_lane.clone();
         let mut writer = AsyncWriter::with_buffer(SimAsyncSink(core.clone()), garbage(self.init_buf as usize));
         if self.init_buf > 0 {
             obs.borrow_mut().fault(fk::garbage_buffer);
@@ -373,6 +380,7 @@ impl C16 {
             ret_zero: 0,
         };
 
+        let mut write_cancels = 0u32;
         for (idx, it) in self.items.iter().enumerate() {
             if self.rewrap_at == Some(idx as u32) {
                 // the writer is idle here (every frame is driven to completion): hand its parts to a fresh writer
@@ -438,6 +446,14 @@ impl C16 {
                     if w.inflight.is_none() {
                         fail!("s_reject_silent", "{at}: a value that must be rejected made write return Pending");
                     }
+                    if self.max_len_mode == 0 {
+                        if self.knob_mid == Some(write_cancels) {
+                            let m = payloads.iter().skip(idx + 1).flatten().map(|p| p.len()).max().unwrap_or(0);
+                            writer.set_max_len(m as u32);
+                            obs.borrow_mut().probe(pb::max_len_changed_mid_run);
+                        }
+                        write_cancels += 1;
+                    }
                     sync_to_completion(&mut w, &mut writer, &waker, &format!("sync after cancelled write #{idx}"))?;
                 }
                 Drive::Done(res) => {
@@ -479,11 +495,18 @@ impl C16 {
             if it.flush_after {
                 let mut cx = Context::from_waker(&waker);
                 let mut fut = Box::pin(writer.flush());
-                w.tick()?;
-                match fut.as_mut().poll(&mut cx) {
-                    Poll::Ready(Ok(())) => {}
-                    Poll::Ready(Err(e)) => fail!("s_commit", "flush after write #{idx} failed: {e}"),
-                    Poll::Pending => fail!("progress", "flush returned Pending although the sink's flush is always ready"),
+                loop {
+                    w.tick()?;
+                    match fut.as_mut().poll(&mut cx) {
+                        Poll::Ready(Ok(())) => break,
+                        Poll::Ready(Err(Error::Io(e))) => {
+                            // the sink's flush failed (scripted): passes through, changes nothing
+                            w.note_io_err(e.kind(), "flush")?;
+                            break;
+                        }
+                        Poll::Ready(Err(e)) => fail!("s_commit", "flush after write #{idx} failed: {e}"),
+                        Poll::Pending => {}
+                    }
                 }
                 drop(fut);
                 w.check_sink("flush")?;
@@ -517,7 +540,9 @@ impl Scenario for C16 {
             .set("use_ctx", self.use_ctx)
             .set("knob_at", self.knob_at)
             .set("rewrap_at", self.rewrap_at)
+            .set("knob_mid", self.knob_mid)
             .set("sink", lane_to_json(&self.sink))
+            .set("flush_lane", lane_to_json(&self.flush_lane))
             .set("caller", decides_to_json(&self.caller))
     }
     fn from_json(j: &Json) -> Result<Self, String> {
@@ -528,7 +553,9 @@ impl Scenario for C16 {
             use_ctx: j.get("use_ctx").and_then(|c| c.as_bool()).unwrap_or(false),
             knob_at: j.get("knob_at").and_then(|c| c.as_u64()).unwrap_or(0) as u32,
             rewrap_at: j.get("rewrap_at").and_then(|c| c.as_u64()).map(|c| c as u32),
+            knob_mid: j.get("knob_mid").and_then(|c| c.as_u64()).map(|c| c as u32),
             sink: lane_from_json(j.get("sink"))?,
+            flush_lane: if j.get("flush_lane").is_some() { lane_from_json(j.get("flush_lane"))? } else { Vec::new() },
             caller: decides_from_json(j.get("caller"))?,
         })
     }
@@ -543,6 +570,7 @@ impl Scenario for C16 {
         shrink_vec(&self.items, |v| out.push(C16 { items: v, ..self.clone() }));
         shrink_vec(&self.sink, |v| out.push(C16 { sink: v, ..self.clone() }));
         shrink_vec(&self.caller, |v| out.push(C16 { caller: v, ..self.clone() }));
+        shrink_vec(&self.flush_lane, |v| out.push(C16 { flush_lane: v, ..self.clone() }));
         for (i, st) in self.sink.iter().enumerate() {
             if !matches!(st, Step::Xfer(u32::MAX)) {
                 let mut l = self.sink.clone();
@@ -597,6 +625,9 @@ impl Scenario for C16 {
         if self.rewrap_at.is_some() {
             out.push(C16 { rewrap_at: None, ..self.clone() });
         }
+        if self.knob_mid.is_some() {
+            out.push(C16 { knob_mid: None, ..self.clone() });
+        }
         out
     }
 }
@@ -608,7 +639,7 @@ fn val(ty: Ty, size: u32, seed: u64) -> Item {
 }
 
 fn base(items: Vec<Item>) -> C16 {
-    C16 { items, max_len_mode: 0, init_buf: 0, use_ctx: false, knob_at: 0, rewrap_at: None, sink: vec![], caller: vec![] }
+    C16 { items, max_len_mode: 0, init_buf: 0, use_ctx: false, knob_at: 0, rewrap_at: None, knob_mid: None, sink: vec![], flush_lane: vec![], caller: vec![] }
 }
 
 fn total_len(items: &[Item]) -> usize {
@@ -695,7 +726,13 @@ fn generate_single(r: &mut Rng, tier: Tier) -> C16 {
         use_ctx: r.chance(1, 8),
         knob_at: if r.chance(1, 4) { r.below(nitems as u64) as u32 } else { 0 },
         rewrap_at: if r.chance(1, 6) { Some(r.below(nitems as u64) as u32) } else { None },
+        knob_mid: if r.chance(1, 4) { Some(r.below(3) as u32) } else { None },
         sink,
+        flush_lane: if r.chance(1, 3) {
+            (0..r.usize_in(1, 12)).map(|_| match r.below(4) { 0 => Step::Pending, 1 => Step::Err(*r.pick(&ERR_KINDS)), _ => Step::Xfer(1) }).collect()
+        } else {
+            Vec::new()
+        },
         caller,
     }
 }
